@@ -609,7 +609,7 @@ def run(ck):
                 w["heal_rounds"] = HEAL_BOUND + QUIET + 2
                 specs.append(w)
     ck.cov["witness_runs"] = len(specs)
-    n_dir = int(os.environ.get("C01_DIRECTED", 10 if quick else 300))
+    n_dir = int(os.environ.get("C01_DIRECTED", 8 if quick else 300))
     specs += [gen_spec(ck.rng, i) for i in range(n_direct)]
     specs += [gen_spec(ck.rng, n_direct + i, "nodehost") for i in range(n_nh)]
     specs += [gen_directed(ck.rng, 2000000 + i) for i in range(n_dir)]
